@@ -411,8 +411,37 @@ def module_constants():
     return 1, bad
 
 
+def date_of_birth_time_zones():
+    """The one container member whose XML text carries a time zone: exhaustive over the offsets xsd allows."""
+    import datetime
+    from sdc11073.namespaces import default_ns_helper as nsh
+    from sdc11073.xml_types import isoduration, pm_types
+    from sdc11073.xml_types import pm_qnames as pm
+    ns_map = nsh.partial_map(nsh.PM, nsh.MSG, nsh.XSI, nsh.EXT)
+    cases, bad = 0, []
+    for off in range(-840, 841):
+        tz = datetime.timezone(datetime.timedelta(minutes=off))
+        for with_time in (False, True):
+            cases += 1
+            dob = isoduration.XsdDateInformation(1969, 7, 20, 20, 17, 40.5, tz_info=tz) if with_time \
+                else isoduration.XsdDateInformation(1969, 7, 20, tz_info=tz)
+            core = pm_types.PatientDemographicsCoreData(given_name='N')
+            core.DateOfBirth = dob
+            node = core.as_etree_node(pm.CoreData, ns_map)
+            back = pm_types.PatientDemographicsCoreData.from_node(node)
+            text = node.find(pm.DateOfBirth).text
+            b = back.DateOfBirth
+            if b is None or b.tz_info is None or b.tz_info.utcoffset(None) != tz.utcoffset(None) or b != dob:
+                bad.append({'key': 'date-of-birth-time-zone', 'detail': f'DateOfBirth with offset {off} min written as {text!r} and read back as {b!s}'})
+            elif etree.tostring(back.as_etree_node(pm.CoreData, ns_map)) != etree.tostring(node):
+                bad.append({'key': 'date-of-birth-rewrite', 'detail': f'DateOfBirth with offset {off} min: second write differs from {text!r}'})
+    return cases, bad
+
+
 if __name__ == '__main__':
     c = Collector()
+    c.run('C05.date_of_birth_time_zones', 'B', date_of_birth_time_zones,
+          bound='pm:DateOfBirth of PatientDemographicsCoreData with EVERY time-zone offset of the xsd value space (-14:00..+14:00, 1681 whole minutes) x date / dateTime: write, read, compare, re-write')
     c.run('C05.module_constants', 'F', module_constants, bound='MANDATORY_VALUE_CHECKING')
     c.run('C05.targets_distinct', 'F', targets_distinct, bound='every class with _props in 9 modules: attribute / element names of its properties are pairwise distinct')
     c.run('C05.schema_conformance', 'F', schema_conformance, bound='every class that maps to a complexType of the bundled XSDs (by NODETYPE or class name): property targets declared, element order = sequence order, required members covered')
